@@ -13,12 +13,14 @@
 package c06
 
 import (
+	"bytes"
 	"encoding/xml"
 	"errors"
 	"fmt"
 	"strconv"
 	"sync"
 	"sync/atomic"
+	"time"
 
 	"mellium.im/xmlstream"
 	"mellium.im/xmpp"
@@ -78,6 +80,7 @@ type plan struct {
 	Replies   []replySpec
 	cancelled chan struct{} // closed after the requester's context was cancelled
 	returned  chan struct{} // closed after the requester's call returned
+	fast      bool          // hold the sender right after its request is on the wire until the reply was processed (a fast peer)
 	seen      chan struct{} // closed when the peer saw the request
 	seenOnce  sync.Once
 	firstSent chan struct{} // closed after the first reply was written
@@ -166,7 +169,55 @@ func newWorld(c *core.Case, o sess.Opts) *world {
 		w.serveCh <- err
 	}()
 	w.loop = sess.RunPeerLoop(p.Peer, w.onPeer)
+	// A fast peer: for requests planned that way the sending goroutine is held
+	// right after its request reached the wire (still inside the write) until
+	// the serve loop has dealt with the peer's answer, or 30 ms.  Code that
+	// registers its wait only after sending loses the answer in that window.
+	p.Lib.SetWriteHook(func(b []byte) {
+		i := bytes.Index(b, []byte(`rq="`))
+		if i < 0 {
+			return
+		}
+		rest := b[i+4:]
+		j := bytes.IndexByte(rest, '"')
+		if j < 0 {
+			return
+		}
+		rq := string(rest[:j])
+		w.mu.Lock()
+		pl := w.plans[rq]
+		w.mu.Unlock()
+		if pl == nil || !pl.fast {
+			return
+		}
+		w.c.Count("fast_peer_holds", 1)
+		deadline := time.Now().Add(30 * time.Millisecond)
+		for time.Now().Before(deadline) {
+			if w.answeredInHandler(rq) {
+				w.c.Count("fast_peer_answer_processed_while_sender_held", 1)
+				return
+			}
+			time.Sleep(200 * time.Microsecond)
+		}
+	})
 	return w
+}
+
+// answeredInHandler reports whether some reply delivered for rq has already
+// been seen by a handler.
+func (w *world) answeredInHandler(rq string) bool {
+	w.log.mu.Lock()
+	defer w.log.mu.Unlock()
+	rns := map[int]bool{}
+	for _, e := range w.log.evs {
+		if e.Ev == "deliver" && e.RQ == rq {
+			rns[e.RN] = true
+		}
+		if e.Ev == "handler" && rns[e.RN] {
+			return true
+		}
+	}
+	return false
 }
 
 func (w *world) nextRN() int { return int(w.rn.Add(1)) }
